@@ -40,9 +40,9 @@ def run(ctx):
         "trace_events": summ["events"], "trace_states": r.distinct,
         "scenarios_run": summ["evaluations"], "distinct_traces": summ["distinct"],
         "rejected": len(rej), "binding_selftest_mutants_rejected": nself,
-        "design_check": ("MCNegotiation: pool of 8 feature kinds, configurations <= 2 kinds, both roles, 3 initial states, <= 2 lists of <= 2 entries, faults and cancellation" if quick else
-                         "MCNegotiation, three runs: small pool (8 kinds) x <= 2 kinds x <= 3 lists; larger pool x <= 2 kinds x <= 3 lists; small pool x <= 3 kinds x <= 3 lists; both roles, 3 initial states, lists of <= 2 entries, faults and cancellation"),
+        "design_check": ("MCNegotiation: pool of 10 feature kinds (incl. a voluntary feature reporting Ready, a feature prohibiting its own necessary bit), configurations <= 2 kinds, both roles, 3 initial states, <= 2 lists of <= 2 entries, faults and cancellation" if quick else
+                         "MCNegotiation, three runs: small pool (10 kinds) x <= 2 kinds x <= 3 lists; larger pool x <= 2 kinds x <= 3 lists; small pool x <= 3 kinds x <= 3 lists; both roles, 3 initial states, lists of <= 2 entries, faults and cancellation"),
         "samples": summ["samples"][:2],
         "rule": "scenarios = seeded random (configuration <= 4 kinds from the TLC-emitted pool, role, initial bits, header script, advertisement lists with repeats/unknown names, selection script, failing features, tee); a trace is distinct if its event sequence differs",
     }, assumptions=["instrumented StreamFeature values stand for arbitrary features (masks, mandatory, restart, negotiable as in NegPool.tla)",
-                    "features whose mask sets Ready are always advertised as mandatory (as resource binding is)"])
+                    "a failed establishment may carry the Ready bit only if a successfully executed step of that stream reported it (C04_ErrNotReady)"])
